@@ -8,8 +8,8 @@ From PG Require Model.Typing.
 (* A write that is rejected (with any error: type / value / key errors of the schema, and also permission and index
    errors) is not stored: a refused operation that is not a batch, on a target that checks its members against a schema,
    leaves the whole forest exactly as it was. *)
-Theorem C03_rejected_not_stored : forall q ev st o st' e,
-  step2 q ev st o = (st', Err e) -> batch_op (o2_op o) = false ->
+Theorem C03_rejected_not_stored : forall q nf ev st o st' e,
+  step2 q nf ev st o = (st', Err e) -> batch_op (o2_op o) = false ->
   (forall n, get_at st (o2_pos o) = Some n -> checks_members ev n = true) ->
   st' = st.
 Proof. exact step2_rejected_unchanged. Qed.
@@ -17,20 +17,20 @@ Print Assumptions C03_rejected_not_stored.
 
 (* "A batch may have applied its earlier, valid elements": when a rebind / update batch is refused at some element, the
    state is the one its elements before the refused one produce, and the refused element itself changes nothing. *)
-Theorem C03_rejected_batch_prefix : forall q ev sc pvs st tp upd st' upd' e,
-  trebind_loop q ev sc st tp pvs upd = (st', upd', Some e) ->
+Theorem C03_rejected_batch_prefix : forall q nf ev sc pvs st tp upd st' upd' e,
+  trebind_loop q nf ev sc st tp pvs upd = (st', upd', Some e) ->
   exists pre p x post,
     pvs = pre ++ (p, x) :: post /\
-    trebind_loop q ev sc st tp pre upd = (st', upd', None) /\
-    exists c, trebind_one q ev sc st' tp p x = (st', PErr e, c).
+    trebind_loop q nf ev sc st tp pre upd = (st', upd', None) /\
+    exists c, trebind_one q nf ev sc st' tp p x = (st', PErr e, c).
 Proof. exact trebind_loop_prefix. Qed.
 Print Assumptions C03_rejected_batch_prefix.
 
-Theorem C03_rejected_extend_prefix : forall q ev sc xs st ps upd st' upd' e,
-  textend_loop q ev sc st ps xs upd = (st', upd', Some e) ->
+Theorem C03_rejected_extend_prefix : forall q nf ev sc xs st ps upd st' upd' e,
+  textend_loop q nf ev sc st ps xs upd = (st', upd', Some e) ->
   exists pre x post u,
     xs = pre ++ x :: post /\
-    textend_loop q ev sc st ps pre upd = (st', u, None) /\
-    tprim q ev sc st' ps (KI (cur_len st' ps)) x = (st', PErr e).
+    textend_loop q nf ev sc st ps pre upd = (st', u, None) /\
+    tprim q nf ev sc st' ps (KI (cur_len st' ps)) x = (st', PErr e).
 Proof. exact textend_loop_prefix. Qed.
 Print Assumptions C03_rejected_extend_prefix.
